@@ -191,6 +191,14 @@ CHECKS = {
          'ranges must fail, ill-typed bounds must raise the documented errors, and after set_random(seed(S)) (seeds of every size '
          'and sign) a mixed sequence of 30 calls must repeat after re-seeding and on a fresh machine.',
     note='No distributional claim beyond endpoint reachability (false-alarm probability < 2^-150 per tiny range).'),
+ 'C37': dict(
+    level='exploration',
+    technique='runtime monitoring: reference algorithms (Python hashlib/hmac/base64/codecs) next to the engine + encode/decode and encrypt/decrypt round trips + tamper rejection',
+    text='Inputs of length 0-300 (every length around the hash block sizes), as octet strings and as Unicode text, are hashed '
+         'with all 11 algorithms of crypto_data_hash/3 (HMAC for sha256/384/512 with keys of 0-200 bytes) and compared byte for '
+         'byte with hashlib/hmac; hex_bytes/2, chars_base64/3 (padding x charset) and chars_utf8bytes/2 are compared in both '
+         'directions; chacha20-poly1305 encrypt->decrypt must return the plaintext and a flipped tag/ciphertext/aad byte must be rejected.',
+    note='AEAD ciphertext bytes are not compared (no reference in the stdlib). Password hashing, signatures and curves are outside the statement.'),
 }
 
 NOT_APPLICABLE_REASON_UNBUILT = ('check designed in DESIGN.md but not built/validated yet in this session; '
